@@ -252,7 +252,7 @@ def machine_stored(root, pt):
     return f
 
 
-PARTS = [Part("populate", cases(), check, n_quick=4000, n_thorough=10000)]
+PARTS = [Part("populate", cases(), check, n_quick=4000, n_thorough=30000)]
 
 
 def coverage_warnings(rec):
